@@ -46,7 +46,8 @@ Tables == {<<(<<NX, <<S1(112), S1(113)>>>>), (<<NY, <<S1(114)>>>>)>>,           
            <<(<<NX, <<S1(112), NullV>>>>), (<<NY, <<S1(114)>>>>)>>,                    \* x: [p, null] (wrong type)
            <<(<<NY, <<S1(114), S1(115)>>>>)>>}                                           \* x missing
 F == <<102>>
-Chains == {<<N_expand>>, <<N_contains, N_expand>>, <<N_expand, N_startswith>>, <<N_endswith, N_expand>>}
+Chains == {<<N_expand>>, <<N_contains, N_expand>>, <<N_expand, N_startswith>>, <<N_endswith, N_expand>>,
+           <<N_cased, N_expand>>, <<N_expand, N_cased>>}
 Item(f, ch, vs) == [field |-> f, chain |-> ch, vals |-> vs, single |-> Len(vs) = 1]
 Body(it) == [kind |-> "map", items |-> <<it>>, maps |-> <<>>, vals |-> <<>>]
 N_sel == <<115, 101, 108>>
@@ -55,7 +56,7 @@ Items1 == {Item(F, ch, <<Values[i]>>) : ch \in Chains, i \in 1..Len(Values)}
           \cup {Item(F, <<N_all, N_expand>>, <<Values[i], Values[8]>>) : i \in 1..Len(Values)}
           \cup {Item(F, <<N_contains, N_all, N_expand>>, <<Values[i], Values[10]>>) : i \in {1, 2, 3}}
           \cup {Item(<<>>, <<N_expand>>, <<Values[i]>>) : i \in 1..Len(Values)}
-          \cup {Item(F, <<N_re, N_expand>>, <<Values[i]>>) : i \in {1, 2, 8, 9}}
+          \cup {Item(F, <<N_re, N_expand>>, <<Values[i]>>) : i \in {1, 2, 3, 4, 6, 8, 9}}
           \cup {Item(F, <<N_expand>>, <<Values[1], Values[10]>>)}
 Cases == {[doc |-> Doc(it), pipe |-> p, vars |-> t, sw |-> s] : it \in Items1, p \in Pipelines, t \in Tables, s \in BOOLEAN}
 ASSUME LET A == SetToSeq(Cases)
